@@ -45,6 +45,20 @@ impl MessageReader<'_> {
         }
     }
 
+    /// Returns the number of container layers (compression, encryption) this reader is nested in.
+    pub(super) fn nesting_depth(&mut self) -> usize {
+        let mut depth = 0;
+        let mut current = self;
+        loop {
+            current = match current {
+                Self::Compressed(r) => r.get_mut().get_mut(),
+                Self::Edata(r) => r.get_mut().get_mut(),
+                Self::Reader(_) => return depth,
+            };
+            depth += 1;
+        }
+    }
+
     fn check_trailing_data(&mut self) -> io::Result<()> {
         fn check_next_packet<R: DebugBufRead>(
             mut parser: crate::packet::PacketParser<R>,
